@@ -1,7 +1,7 @@
 HOOK_COMMITS = ["69b5feac", "e0ac4262"]
-FIX_COMMITS = ["1d9ec378", "304105e7", "df3a2e6c", "f7361866", "4009b9f0", "f51e7edb", "ccff1f53", "d86e4171"]
+FIX_COMMITS = ["1d9ec378", "304105e7", "df3a2e6c", "f7361866", "4009b9f0", "f51e7edb", "ccff1f53", "d86e4171", "5461825f"]
 ENGINES = [
-    {"name": "tlc+harness", "path": "/verif/bin/check", "serves_properties": ["C01", "C02", "C04", "C05", "C06", "C07", "C08", "C09", "C10", "C11", "C12", "C13", "C15", "C16", "C18", "C19", "C20", "C03"],
+    {"name": "tlc+harness", "path": "/verif/bin/check", "serves_properties": ["C01", "C02", "C04", "C05", "C06", "C07", "C08", "C09", "C10", "C11", "C12", "C13", "C15", "C16", "C17", "C18", "C19", "C20", "C03"],
      "kind_free_text": "explicit TLA+ specification (spec/*.tla) checked with TLC; bound to the Rust code by a harness crate "
                        "(/verif/harness) that replays TLC-generated behaviours into mls-rs and records traces validated by TLC"},
 ]
@@ -81,6 +81,12 @@ CHECKS += [
     {"id": "C16", "category": "model_checking", "technique": _CORE + "; observer actions replayed into a real ExternalClient/ExternalGroup",
      "text": "Obs* actions of MlsGroup.tla model an external observer that starts from any member's GroupInfo at any epoch, follows proposals and commits with the members' rule set minus secrets, and lets application ciphertexts through iff their epoch >= max(0, epoch - jitter) for jitter in {unset, 0, 1, 2, 1000}; TLC checks ObserverTracks exhaustively on a bounded instance; generated behaviours are replayed into a real ExternalGroup under catch_unwind comparing outcome, epoch, extensions, tree, proposal cache with the model and group context, roster and exported tree bytes with every real member of the same epoch, with snapshot/restore at model-chosen points.",
      "note": "see C01; proposals issued by the observer as an external sender and external commits are not generated yet; encrypted handshake messages are modelled but not in the generated configuration"},
+]
+
+CHECKS += [
+    {"id": "C17", "category": "model_checking", "technique": _CORE + "; successor-group actions (SuccCreate / SuccJoin) replayed through ReinitClient, Group::branch, join_subgroup",
+     "text": "After a re-init commit the model freezes the group (TLC: FrozenNeverAdvances); successor creation succeeds exactly when key-package owners + creator equal the old member identities (re-init, whatever the old tree's shape) or are a subset (branch) (TLC: SuccessorsLegal); joining succeeds exactly for an invited party that holds the old group in the epoch the successor was created from and uses the matching API. Generated behaviours (trees with blank interior leaves, exact / smaller / larger member sets, joins through the right and wrong API, plain Client::join_group, members in other epochs) are replayed; outcome class, epoch 1, member identities, group id, extensions, and creator/joiner agreement (context, tree, authenticator, application message) are compared.",
+     "note": "see C01; cipher-suite / version change on re-init and identity (credential) changes between old and new leaves are not generated; mismatched Welcomes are limited to wrong kind / wrong epoch / no old state"},
 ]
 
 _PENDING = "check not built yet in this round (see DESIGN.md section 10 build order); will be claimed once its TLA+ model and binding exist"
